@@ -453,6 +453,8 @@ class GenCfg:
     inheritance: bool = False
     docs: bool = False
     foreign: bool = False
+    private_bases: bool = False  # public classes derive from private classes of their module and override some methods
+    private_name_clashes: bool = False  # private members named like re-exported private module-level declarations
     shared_member_names: bool = False  # nested classes reuse member names of their outer class
     twins: bool = False  # modules with the same name (and some equal declaration names) in different packages
     twin_module_reexports: bool = False  # star / module-alias re-exports of a module whose name another module shares
@@ -522,7 +524,43 @@ def random_pkg(rng, cfg: GenCfg) -> Pkg:
                     # module name (recorded finding): same-named modules only get absolute name re-exports
                     form = rng.choice(["name-abs-parent", "alias-abs-parent", "name-abs-ancestor"])
                 _add_reexport(rng, names, pkg, m, d, form)
+    if cfg.private_bases:
+        _add_private_bases(rng, names, pkg)
+    if cfg.private_name_clashes:
+        _add_private_name_clashes(rng, pkg)
     return pkg
+
+
+def _add_private_bases(rng, names, pkg: Pkg) -> None:
+    """A private base class in front of some public classes; the subclass overrides one of its (multi-word) methods."""
+    for m in pkg.modules:
+        for d in list(m.decls):
+            if isinstance(d, Cls) and not d.bases and not is_private_name(d.name) and rng.random() < 0.25:
+                base = Cls("_Base" + d.name)
+                shared = names.fresh("over_ridden_")
+                base.methods = [Fn(shared, [Param(names.fresh("bp"), "int")], "int", role="inst"), Fn(names.fresh("base_only_"), [], "int", role="inst")]
+                d.methods.append(Fn(shared, [Param(names.fresh("sp"), "int")], "int", role="inst"))
+                d.bases.append(base.name)
+                m.decls.insert(m.decls.index(d), base)
+
+
+def _add_private_name_clashes(rng, pkg: Pkg) -> None:
+    """A private function / class that an __init__ re-exports under a public alias, and - earlier or later in the same
+    module - a public class with a private member of the same name (which stays private)."""
+    for m in pkg.modules:
+        aliased = [r for res in pkg.inits.values() for r in res if r.form == "name" and r.module == m.qname and r.alias and is_private_name(r.name or "")]
+        publics = [d for d in m.decls if isinstance(d, Cls) and not is_private_name(d.name)]
+        for r in aliased:
+            if not publics or rng.random() < 0.3:
+                continue
+            target = next((d for d in m.decls if getattr(d, "name", None) == r.name), None)
+            host = rng.choice(publics)
+            if target is None or host is target:
+                continue
+            if isinstance(target, Fn) and not any(f.name == r.name for f in host.methods):
+                host.methods.append(Fn(r.name, [Param("clashparam", "int")], "int", role="inst"))
+            elif isinstance(target, Cls) and not any(c.name == r.name for c in host.nested):
+                host.nested.append(Cls(r.name, methods=[Fn("clashsecret", role="inst")]))
 
 
 def _add_reexport(rng, names, pkg: Pkg, m: Mod, d, form: str) -> None:
